@@ -331,3 +331,28 @@ def estimate_stream_steps(run, ts, op):
         elif isinstance(pr["norm"], list):
             total += len(pr["norm"])
     return total
+
+
+def run_tokcli(ts, op):
+    """scripts.generate_tokens.main() in-process: one Parser + TokenFormatterBuilder over several files."""
+    import scripts.generate_tokens as cli
+    ctx = ts.ctx
+    old_argv, old_out = sys.argv, sys.stdout
+    buf = io.StringIO()
+    err = None
+    try:
+        sys.argv = ["generate_tokens"] + list(op["argv"])
+        sys.stdout = buf
+        cli.main()
+    except (SimCancelled, SimKilled):
+        raise
+    except SystemExit as e:
+        err = ["SystemExit", str(e.code)]
+    except Exception as e:  # noqa: BLE001
+        err = [type(e).__name__, str(e)[:200]]
+    finally:
+        sys.argv, sys.stdout = old_argv, old_out
+    ctx.obs = None
+    out = buf.getvalue()
+    return {"op": "tokcli", "kind": "tokcli", "raw": None, "snap": None, "norm": [out, err and err[0]], "stdout": out, "error": err, "draws": [],
+            "reads": 0, "toks": 0, "dirty": []}
